@@ -127,6 +127,7 @@ class Flow:
     def ev(self, kind, node, **kw):
         e = Event(kind, node, self.loops, self.guards, stmt=self._cur_stmt, **kw)
         e.trys = tuple(getattr(self, '_trys', ()))
+        e.validated = tuple(getattr(self, '_valid', ()))   # earlier `if bad: raise` checks that dominate the event
         self.events.append(e)
         return e
 
@@ -225,6 +226,7 @@ class Flow:
             return None
         pl, pg = tuple(self.loops), tuple(self.guards)
         pt = tuple(getattr(self, '_trys', ()))
+        pv = tuple(getattr(self, '_valid', ()))
         rets = []
         for e in child.events:
             e.inlined = g.qualname
@@ -234,6 +236,7 @@ class Flow:
             e.loops = pl + e.loops
             e.guards = pg + e.guards
             e.trys = pt + e.trys
+            e.validated = pv + getattr(e, 'validated', ())
             self.events.append(e)
         for k, v in child.env.items():
             if k.startswith('@'):
@@ -272,6 +275,7 @@ class Flow:
     def block(self, stmts):
         """Process statements; returns True if the block terminates."""
         pushed = 0
+        pushed_v = 0
         for i, s in enumerate(stmts):
             self._cur_stmt = s
             if isinstance(s, ast.If):
@@ -279,6 +283,7 @@ class Flow:
                 if t == 'both':
                     for _ in range(pushed):
                         self.guards.pop()
+                    self._popv(pushed_v)
                     return True
                 if t in ('body', 'orelse'):
                     # the rest of this block runs only when the non-terminating
@@ -287,18 +292,30 @@ class Flow:
                     g = Guard(s.test, t == 'orelse', test_rf, s)
                     g.early = True
                     g.exit = exit_kinds(s.body if t == 'body' else s.orelse)
-                    self.guards.append(g)
                     self.assume(test_rf, t == 'orelse')
+                    if g.exit == {'raise'}:
+                        # `if bad: raise` is input validation: what follows is not "conditional" in any sense a
+                        # rule cares about (the rejected input has no behaviour), so no guard is recorded
+                        self._valid = list(getattr(self, '_valid', [])) + [g]
+                        pushed_v += 1
+                        continue
+                    self.guards.append(g)
                     pushed += 1
                 continue
             self.stmt(s)
             if isinstance(s, (ast.Return, ast.Raise, ast.Break, ast.Continue)):
                 for _ in range(pushed):
                     self.guards.pop()
+                self._popv(pushed_v)
                 return True
         for _ in range(pushed):
             self.guards.pop()
+        self._popv(pushed_v)
         return False
+
+    def _popv(self, n):
+        if n:
+            self._valid = list(self._valid)[:-n]
 
     def if_(self, s):
         test_rf = self.expr(s.test)
